@@ -39,10 +39,15 @@ def main():
     if "--checks" in sys.argv:
         checks = sys.argv[sys.argv.index("--checks") + 1].split(",")
     patch = os.path.abspath(os.path.join(src, "patch.diff"))
+    ported = os.path.join(ROOT, "seeded", sid, "patch_ported.diff")
+    if os.path.exists(ported):
+        patch = ported       # the original no longer applies since a later fix: commit touched the same lines
     demo = os.path.abspath(os.path.join(src, "demo.rs"))
     meta = {}
     try:
         meta = json.load(open(os.path.join(src, "meta.json")))
+        if "agent_ran" in meta:     # re-run from /verif/seeded/<id>: keep the seeding agent's description
+            meta = {"summary": meta.get("summary"), "needs": meta.get("needs"), "ran": meta.get("agent_ran")}
     except Exception:
         pass
     result = {"seed": sid, "property": prop, "agent_meta": meta, "ran": []}
@@ -117,7 +122,7 @@ def finish(result, src, sid):
     dst = os.path.join(ROOT, "seeded", sid)
     os.makedirs(dst, exist_ok=True)
     for f in ("patch.diff", "demo.rs"):
-        if os.path.exists(os.path.join(src, f)):
+        if os.path.exists(os.path.join(src, f)) and os.path.abspath(src) != os.path.abspath(dst):
             shutil.copy(os.path.join(src, f), os.path.join(dst, f))
     am = result.get("agent_meta") or {}
     meta = {"property": result["property"], "seed": sid,
@@ -128,6 +133,9 @@ def finish(result, src, sid):
             "demo_passes_without_change": result.get("demo_passes_without"),
             "checks_run": result.get("checks"), "detected_by": result.get("detected_by"),
             "tool_errors": result.get("tool_errors"), "ran": result.get("ran"),
+            "patch_used": "patch_ported.diff" if os.path.exists(os.path.join(dst, "patch_ported.diff")) else "patch.diff",
+            "repo_head": subprocess.run(["git", "-C", "/repo", "rev-parse", "--short", "HEAD"],
+                                        stdout=subprocess.PIPE, text=True).stdout.strip(),
             "agent_ran": am.get("ran")}
     with open(os.path.join(dst, "meta.json"), "w") as fh:
         json.dump(meta, fh, indent=1)
